@@ -48,7 +48,7 @@ def impl_design(case):
         return {"reject": f"{type(ex).__name__}: {str(ex)[-300:]}"}
     pj = observe.pkg_json(pkg)
     out["pkg"] = pj
-    out["top"] = next(m["name"] for m in pj["modules"] if m["name"].split(".")[-1] == d["top"])
+    out["top"] = next(m["name"] for m in pj["modules"] if m["name"].split(".")[-1] in (d["top"], b.top.name))
     if case.get("netlist", True):
         try:
             s = io.StringIO()
